@@ -268,13 +268,16 @@ class Model(object):
         # If input x is Samples we apply func for each sample
         # TODO: Check if this can be done all-at-once for computational speed-up
         if isinstance(x,Samples):
+            # Samples carry their own representation flags
+            if not x.is_par and x.is_vec:
+                x = x.funvals # vectorized function values -> function values
             out = np.zeros((func_range_geometry.par_dim, x.Ns))
             # Recursively apply func to each sample
             for idx, item in enumerate(x):
                 out[:,idx] = self._apply_func(func,
                                               func_range_geometry,
                                               func_domain_geometry,
-                                              item, is_par=True,
+                                              item, is_par=x.is_par,
                                               **kwargs)
             return Samples(out, geometry=func_range_geometry)
         
